@@ -448,7 +448,7 @@ class PoolRun:
             els = [x if (r + j) % 2 == 0 else _KeysGetItem(x) for j, x in enumerate(els)]
         return els, exp
 
-    def make_iter(self, r, els):
+    def make_iter(self, r, els, void_before=None):
         me, st = self, self.reqs[r]
 
         class CountingIter:
@@ -458,6 +458,11 @@ class PoolRun:
 
             def __next__(self):
                 j = st["pulls"]
+                if void_before is not None and j == void_before and not st.get("voided"):
+                    # an element that cannot be unpacked at all (None / 0 for starmap, doublestarmap): the pool logs the
+                    # TypeError and goes on to the next element within the same step - as if it had not been there
+                    st["voided"] = True
+                    return None if r % 2 else 0
                 try:
                     ng = len(me.pool.get_group_ids(st["gname"])) if st.get("gname") is not None else -1
                 except Exception:
@@ -826,7 +831,7 @@ class PoolRun:
         else:
             els, exp = self.elements(r, tpl)
             f["exp"] = exp
-            it = self.make_iter(r, els)
+            it = self.make_iter(r, els, tpl.get("void") if kind in ("starmap", "doublestarmap") else None)
             f["iters"] = 0
             try:
                 ret = getattr(pool, kind)(func, it, num_concurrent=tpl.get("nc", 1), group_name=gname,
